@@ -43,6 +43,8 @@ type S struct {
 	reconnects int64
 	unsettled  bool
 	bad        bool
+	// stableNoHandler: see indep
+	stableNoHandler bool
 }
 
 func (s *S) fail(what, kase string) { s.bad = true; s.c.Fail(what, s.name+" "+kase) }
@@ -98,13 +100,26 @@ type indep struct {
 	sent, recvHi, recvEv, err, drop, aerr, redials int64
 }
 
-func (s *S) indep() indep {
-	var x indep
+func (s *S) indep() (x indep) {
 	for _, p := range s.e.Peers() {
 		x.sent += p.DataRecv.Load()
 		x.recvHi += p.DataSent.Load() + p.DataSentMaybe.Load()
 	}
-	x.recvEv = s.e.HandlerCalls.Load()
+	// evidence that a frame the peer wrote was dispatched: a handler call, a decode-error handler
+	// call, a reply result (below), or - for a foreign-session frame under session-ID validation -
+	// the S9F1 the peer read back
+	x.recvEv = s.e.HandlerCalls.Load() + s.e.DecodeErrCalls.Load()
+	for _, p := range s.e.Peers() {
+		x.recvEv += p.S9F1Seen.Load()
+	}
+	defer func() {
+		if s.stableNoHandler {
+			// no data handler is registered, so own-session primaries leave no evidence; the
+			// scenario writes every peer frame at a stable Selected point (no drop in flight), so
+			// every completely written frame must have been dispatched and counted
+			x.recvEv = x.recvHi
+		}
+	}()
 	for _, c := range s.e.Calls() {
 		select {
 		case <-c.Done():
@@ -612,6 +627,84 @@ func s1Retransmissions(c *vh.Ctx, r *rand.Rand) {
 	}
 }
 
+// scenario (HSMS-SS): the connection OPTIONS the counters depend on. One short history per
+// combination of session-ID validation (off/on) x autoS9F9 (off/on) x handler mode (data handler /
+// no data handler / data handler + decode-error handler), trace on in half of them. The peer sends
+// own-session primaries, FOREIGN-session primaries, a primary whose body does not decode, a reply
+// under a foreign session to a waiting send, and lets one send run into T3. References: dataRecv =
+// data frames the peer wrote (whatever their session: a foreign-session frame is counted, then -
+// with validation - dropped and answered S9F1), dataSent = data frames the peer read (the S9F1 /
+// S9F9 notices included), errors = T3 outcomes.
+func optionMatrix(c *vh.Ctx, validate, auto bool, hmode int) {
+	o := genx.DefaultOptions()
+	o.T3 = 60 * time.Millisecond
+	o.ValidateSessionID, o.AutoS9F9, o.HandlerMode, o.TraceTraffic = validate, auto, hmode, (hmode+b2i(validate)+b2i(auto))%2 == 1
+	s := newS(c, fmt.Sprintf("options-v%d-a%d-h%d", b2i(validate), b2i(auto), hmode), o, nil)
+	s.stableNoHandler = hmode == 1
+	defer s.finish()
+	e := s.e
+	if !s.must(e.Open(5*time.Second) == nil, "open") {
+		return
+	}
+	bg := context.Background()
+	round := func(where string) {
+		p := e.Peer(e.Gen())
+		s.wait(e.Start(genx.KSyncW, bg), e.Start(genx.KSyncNW, bg), e.Start(genx.KAsync, bg))
+		_ = p.Primary(1)
+		_ = p.PrimaryForeign(2)
+		_ = p.PrimaryBadBody(3)
+		_ = p.PrimaryForeign(4)
+		_ = p.Primary(5)
+		// a reply under a foreign session to a waiting send: with validation it is dropped (S9F1) and
+		// the send runs into T3; without, it is routed by its system bytes
+		p.Mute.Store(true)
+		cl := e.Start(genx.KSyncW, bg)
+		if s.must(waitFor(5*time.Second, cl.OnWire), "primary on the wire") {
+			for _, f := range p.TakeHeld() {
+				_ = p.ReplyForeign(f)
+			}
+		}
+		s.wait(cl)
+		want := genx.RReply
+		if validate {
+			want = genx.RTimer
+		}
+		if cl.Res != want {
+			s.fail("a reply under a foreign session ID had the wrong effect on the waiting send", fmt.Sprintf("%s validation=%v result=%s", where, validate, genx.ResName(cl.Res)))
+		}
+		// one plain T3
+		cl = e.Start(genx.KSyncW, bg)
+		s.wait(cl)
+		p.TakeHeld()
+		p.Mute.Store(false)
+		if auto {
+			n := int64(1 + b2i(validate))
+			s.must(waitFor(5*time.Second, func() bool { return p.S9F9Seen.Load() >= n }), "S9F9 after T3")
+		}
+		if validate {
+			s.must(waitFor(5*time.Second, func() bool { return p.S9F1Seen.Load() >= 3 }), "S9F1 for every foreign-session frame")
+		}
+		s.quiesce(true, where)
+		if !validate && p.S9F1Seen.Load() != 0 {
+			s.fail("S9F1 sent although session-ID validation is off", where)
+		}
+		if !auto && p.S9F9Seen.Load() != 0 {
+			s.fail("S9F9 sent although autoS9F9 is off", where)
+		}
+	}
+	round("gen0")
+	if s.dropAndReconnect() {
+		round("gen1")
+	}
+}
+
+func b2i(b bool) int {
+	if b {
+		return 1
+	}
+	return 0
+}
+
 // scenario: OpenBackground against a peer whose first k dials fail: the initial-connect retry loop
 // holds the reconnecting gauge positive, is NOT a reconnect, and sends meanwhile are refused.
 func coldConnect(c *vh.Ctx, k int) {
@@ -714,6 +807,12 @@ func random(c *vh.Ctx, r *rand.Rand, idx int) {
 	for i := range mode {
 		mode[i] = r.Intn(4)
 	}
+	if !s1() {
+		o.ValidateSessionID, o.AutoS9F9, o.TraceTraffic = r.Intn(2) == 0, r.Intn(2) == 0, r.Intn(4) == 0
+		if r.Intn(3) == 0 {
+			o.HandlerMode = 2
+		}
+	}
 	lineMode := make([]int, 16)
 	for i := range lineMode {
 		lineMode[i] = r.Intn(9)
@@ -758,7 +857,14 @@ func random(c *vh.Ctx, r *rand.Rand, idx int) {
 		// a few unsolicited primaries from the peer while senders run
 		if p := e.Peer(e.Gen()); p != nil && r.Intn(2) == 0 {
 			for i := 0; i < 1+r.Intn(3); i++ {
-				_ = p.Primary(uint32(1000 + i))
+				switch {
+				case s1() || r.Intn(3) > 0:
+					_ = p.Primary(uint32(1000 + i))
+				case r.Intn(2) == 0:
+					_ = p.PrimaryForeign(uint32(1000 + i))
+				default:
+					_ = p.PrimaryBadBody(uint32(1000 + i))
+				}
 			}
 		}
 		dropNow := g < nGen-1 && r.Intn(2) == 0
@@ -906,6 +1012,15 @@ func main() {
 		coldConnect(c, 1+r.Intn(2))
 		overlapLoops(c)
 		closeReopen(c)
+		if !s1() {
+			for _, v := range []bool{false, true} {
+				for _, a := range []bool{false, true} {
+					for h := 0; h < 3; h++ {
+						optionMatrix(c, v, a, h)
+					}
+				}
+			}
+		}
 		if s1() {
 			closeAfterAck(c, 10)
 			s1Retransmissions(c, r)
@@ -914,5 +1029,10 @@ func main() {
 	for i := 0; i < c.N; i++ {
 		random(c, r, i)
 	}
+	c.Note("hsms options that change which frames are counted/dropped/answered, and their coverage: WithSessionIDValidation off/on (options-* matrix + random), " +
+		"WithAutoS9F9 off/on (matrix + random; on by default in the SECS-I equipment pass), data handler present / absent / with a decode-error handler (matrix; random: present, sometimes with a decode-error handler), " +
+		"WithTraceTraffic off/on (matrix + random; must not change any counter), WithWriteTimeout (outcomes: write error), WithSenderQueueSize (C09 parked-* scenarios), " +
+		"WithAsyncSendErrorHandler (always installed: it is the harness's independent asyncErr count), WithLinktest* / WithT5..T8 / WithReconnectBackoff / WithCloseTimeout / WithLogger (no data counter depends on them; linktest traffic is control-only). " +
+		"Not covered: session-ID validation and decode-error handlers on the SECS-I pass")
 	c.Finish()
 }
